@@ -14,6 +14,7 @@
     bytes that satisfy the acceptance policy.
 -/
 import DnsModel.Lemmas.SynthSoundGrammar
+import DnsModel.Tie.Text
 import DnsModel.Lemmas.InsertRec
 namespace Dns.C13
 open Dns Res
@@ -198,5 +199,13 @@ example : synth [120, 32, 49, 32, 73, 78, 32, 68, 83, 32, 49, 32, 49, 32, 49, 32
 
 example : RecordText [97, 32, 54, 48, 32, 73, 78, 32, 65, 32, 49, 57, 50, 46, 48, 46, 50, 46, 49] [1,97,0, 0,1, 0,1, 0,0,0,60, 0,4, 192,0,2,1] :=
   (grammar_iff _ _).1 (by decide)
+
+
+/-! ### Tie to the current source text
+`copy_raw_name_from_str` is re-translated from /repo/src/synth/gen.rs by rs2lean.py on every run
+(`Generated/TrText.lean`) and proved equal to the model function used above (`Tie/Text.lean`). -/
+theorem source_from_text (raw name : Bytes) (zone : Option Bytes) :
+    Tr.Text.copy_raw_name_from_str raw name zone = copyRawNameFromStr raw name zone :=
+  Tie.copy_raw_name_from_str_eq raw name zone
 
 end Dns.C13
